@@ -779,6 +779,10 @@ class MessagePayload:
                 return np.array(values).T
             elif isinstance(values[0], Timestamp):
                 return np.array([float(v) for v in values])
+            elif all(isinstance(v, int) and not isinstance(v, bool) for v in values):
+                # Use an explicit integer type. Otherwise, a list mixing 64-bit values with and without the top bit set
+                # (e.g., flag words) would be promoted to float64 and rounded.
+                return np.array(values, dtype=np.uint64 if max(values) >= 2 ** 63 and min(values) >= 0 else np.int64)
             else:
                 return np.array(values)
 
